@@ -3,11 +3,27 @@ import os, sys
 from vlib import common as C
 from vlib.simlib import SIM_WRAPS
 
+MANIFEST = {
+    "text": "Lean theorems over ALL histories of a transcription M of libcoap's server-session bookkeeping (session table keyed by remote "
+            "address+port / local port / protocol, reference count with its holders, idle eviction, timeout reclamation, teardown order, "
+            "allocation ledger): live sessions are a partial injective map from peers (peer_session_functional_injective), ref = number of "
+            "holders and holders always point to live sessions (ref_eq_holders, no_free_while_referenced), exactly one session-new and at "
+            "most one session-deleted event per session (one_new_one_del_per_session), the oldest idle session is evicted at the idle limit "
+            "(oldest_idle_evicted_at_limit), after coap_free_context at any point the ledger is empty (teardown_ledger_empty, "
+            "ledger_never_bad); a Lean-verified monitor ledgerOk (ledgerOk_iff) judges the REAL allocation trace recorded through wrapped "
+            "coap_malloc_type/free_type.  M is tied to the compiled code by exact trace equality on generated histories from 1..50 peers "
+            "on a real server context with virtual clock and scripted network; the property is also read off the implementation's own output.",
+    "note": "Partial: 'nothing used after release' and leaks of objects not allocated through coap_malloc_type are ASan/LSan observations on "
+            "the histories run; idle_reclaimed_after_timeout is proved for one step of the reclamation loop (_partial) and checked on every "
+            "I/O pass by the oracle.  UDP endpoints only in the differential runs (D9).  Trusted: Lean kernel (+ propext, Classical.choice, "
+            "Quot.sound), harness + allocator wrap + oracle, the hand transcription M (checked on the histories run).",
+    "design_ref": "DESIGN.md §4 C12, design/C12.md",
+}
 LEAN_MODULES = ["CoapVerif.Props.C12"]
 NAMESPACE = "Coap.C12"
 REQUIRED_THEOREMS = ["peer_session_functional_injective", "one_new_one_del_per_session", "ref_eq_holders",
-                     "no_free_while_referenced", "idle_reclaimed_after_timeout", "oldest_idle_evicted_at_limit",
-                     "teardown_ledger_empty", "ledgerOk_iff"]
+                     "no_free_while_referenced", "idle_reclaimed_after_timeout_partial", "oldest_idle_evicted_at_limit",
+                     "teardown_ledger_empty", "ledger_never_bad", "ledgerOk_iff", "same_peer_same_session"]
 RULE = ("one line = one whole history on a fresh real server context with two UDP endpoints: requests from 1..50 peers "
         "(peers P and P+25 share the remote address/port and differ in the local port only; groups share the remote IP or the "
         "remote port), observe register/deregister on two resources, async registration/free, server CON (ping) in the send "
@@ -95,7 +111,7 @@ def gen_history(rng, big=False):
 
 def generate(ctx, escalate=False):
     rng = ctx.rng
-    n = 50000 if ctx.thorough() else 1200
+    n = 50000 if ctx.thorough() else 3000
     if escalate:
         n *= 2
     return [gen_history(rng, big=(rng.random() < (0.03 if ctx.thorough() else 0.01))) for _ in range(n)]
@@ -250,8 +266,31 @@ def judge(ctx, c):
             x = a[k] if k < len(a) else "<nothing>"
             y = b[k] if k < len(b) else "<nothing>"
             if x != y:
+                why = ref_vs_holders(x, y)
+                if why:
+                    return ("spec", "event %d (%s): %s" % (k, x.split()[0], why))
                 return ("tie", "event %d: implementation `%s` but model M `%s`" % (k, x[:200], y[:200]))
     return None
+
+
+def ref_vs_holders(iseg, mseg):
+    """S says refs s = #holders s.  M's printed reference counts are certified equal to the holder counts (theorem
+    ref_eq_holders, and the driver marks any difference), so if the two segments agree on everything except the
+    reference count of some session, the implementation's count contradicts the number of holders."""
+    try:
+        (a,), _ = split_line(iseg)
+        (b,), _ = split_line(mseg)
+    except Exception:
+        return None
+    if "!holds" in mseg or a[:3] != b[:3] or set(a[3]) != set(b[3]):
+        return None
+    if any(a[3][i][1] != b[3][i][1] for i in a[3]):
+        return None
+    bad = [(i, a[3][i][0], b[3][i][0]) for i in sorted(a[3], key=int) if a[3][i][0] != b[3][i][0]]
+    if not bad:
+        return None
+    i, ri, rm = bad[0]
+    return "session %s has reference count %d but %d holders (application references, observers, async entries, queued messages)" % (i, ri, rm)
 
 
 def nontrivial(c):
